@@ -233,7 +233,7 @@ func c07alias(p *Program, r *Report, rule string) {
 						break
 					}
 					if derivesFromField(v, of) && fieldOf(fa) != of {
-						aliases[typeShort(fa.X.Type())+"."+fieldOf(fa).Name()] = true
+						aliases[typeShort(fa.X.Type())+"."+fieldName(fieldOf(fa))] = true
 					}
 				}
 			}
